@@ -15,14 +15,14 @@ QUICK = [
     ("2", "011", "100"), ("2", "101", "010"), ("2", "000", "000"),
 ]
 
-def _all(n):
+def _all(n, pres=None):
     res = []
     for req in itertools.product("01", repeat=n + 1):
-        for pre in itertools.product("01", repeat=n + 1):
+        for pre in (pres if pres is not None else itertools.product("01", repeat=n + 1)):
             res.append((str(n), "".join(req), "".join(pre)))
     return res
 
-THOROUGH = _all(0) + _all(1) + _all(2) + [
+THOROUGH = _all(0) + _all(1) + _all(2, ["000", "100", "010", "001", "011"]) + [
     ("3", "1111", "0000"), ("3", "0111", "0000"), ("3", "1011", "0100"), ("3", "1101", "0010"),
     ("3", "0110", "1000"), ("3", "1111", "0001"), ("3", "0000", "0000"),
 ]
@@ -37,8 +37,8 @@ _LOAD = re.compile(r"L\.(\S+) (\d+)$")
 class StopOnRequest(Unit):
     name = "stop_on_request/StopOnRequest"; driver = "k1_stop_on_request"; cfg = "shim17"
     handler = "stoponrequest"
-    maxruns = {"quick": 3000, "thorough": 40000}
-    nrandom = {"quick": 200, "thorough": 3000}
+    maxruns = {"quick": 3000, "thorough": 10000}
+    nrandom = {"quick": 200, "thorough": 1000}
 
     def programs(self, tier):
         return QUICK if tier == "quick" else THOROUGH
